@@ -2113,8 +2113,9 @@ func (self *LockDB) Lock(serverProtocol ServerProtocol, command *protocol.LockCo
 						_ = lockManager.PushLockAof(currentLock, AOF_FLAG_UPDATED)
 					}
 				}
+				replyCommand := *command
 				lockManager.glock.Unlock()
-				_ = serverProtocol.ProcessLockResultCommand(command, protocol.RESULT_LOCKED_ERROR, uint16(lockManager.locked), currentLock.locked, lockData)
+				_ = serverProtocol.ProcessLockResultCommand(&replyCommand, protocol.RESULT_LOCKED_ERROR, uint16(lockManager.locked), currentLock.locked, lockData)
 				_ = serverProtocol.FreeLockCommand(currentLockCommand)
 				verifPoint(11)
 				self.wakeUpWaitLocks(lockManager, serverProtocol)
@@ -2158,9 +2159,10 @@ func (self *LockDB) Lock(serverProtocol ServerProtocol, command *protocol.LockCo
 				}
 				lockManager.state.LockCount++
 				lockManager.state.LockedCount++
+				replyCommand := *command
 				lockManager.glock.Unlock()
 
-				_ = serverProtocol.ProcessLockResultCommand(command, protocol.RESULT_SUCCED, uint16(lockManager.locked), currentLock.locked, lockData)
+				_ = serverProtocol.ProcessLockResultCommand(&replyCommand, protocol.RESULT_SUCCED, uint16(lockManager.locked), currentLock.locked, lockData)
 				_ = serverProtocol.FreeLockCommand(currentLockCommand)
 				verifPoint(11)
 				self.wakeUpWaitLocks(lockManager, serverProtocol)
@@ -2229,9 +2231,10 @@ func (self *LockDB) Lock(serverProtocol ServerProtocol, command *protocol.LockCo
 			lock.refCount++
 			lockManager.state.LockCount++
 			lockManager.state.LockedCount++
+			replyCommand := *command
 			lockManager.glock.Unlock()
 
-			_ = serverProtocol.ProcessLockResultCommand(command, protocol.RESULT_SUCCED, uint16(lockManager.locked), lock.locked, lockData)
+			_ = serverProtocol.ProcessLockResultCommand(&replyCommand, protocol.RESULT_SUCCED, uint16(lockManager.locked), lock.locked, lockData)
 			if requireWakeup {
 				verifPoint(1)
 				self.wakeUpWaitLocks(lockManager, serverProtocol)
@@ -2654,16 +2657,16 @@ func (self *LockDB) wakeUpWaitLock(lockManager *LockManager, waitLock *Lock, ser
 			self.AddMillisecondExpried(waitLock)
 		}
 		waitLock.refCount++
-		waitLockProtocol, waitLockCommand := waitLock.protocol, waitLock.command
+		waitLockProtocol, replyCommand := waitLock.protocol, *waitLock.command
 		lockManager.state.LockCount++
 		lockManager.state.LockedCount++
 		lockManager.state.WaitCount--
 		lockManager.glock.Unlock()
 
 		if waitLockProtocol.serverProtocol == serverProtocol {
-			_ = serverProtocol.ProcessLockResultCommand(waitLockCommand, protocol.RESULT_SUCCED, uint16(lockManager.locked), waitLock.locked, lockData)
+			_ = serverProtocol.ProcessLockResultCommand(&replyCommand, protocol.RESULT_SUCCED, uint16(lockManager.locked), waitLock.locked, lockData)
 		} else {
-			_ = waitLockProtocol.ProcessLockResultCommandLocked(waitLockCommand, protocol.RESULT_SUCCED, uint16(lockManager.locked), waitLock.locked, lockData)
+			_ = waitLockProtocol.ProcessLockResultCommandLocked(&replyCommand, protocol.RESULT_SUCCED, uint16(lockManager.locked), waitLock.locked, lockData)
 		}
 		return
 	}
@@ -2886,10 +2889,10 @@ func (self *LockDB) DoAckLock(lock *Lock, succed bool) {
 		} else {
 			self.AddMillisecondExpried(lock)
 		}
-		lockProtocol, lockCommand := lock.protocol, lock.command
+		lockProtocol, replyCommand := lock.protocol, *lock.command
 		lockManager.glock.Unlock()
 
-		_ = lockProtocol.ProcessLockResultCommandLocked(lockCommand, protocol.RESULT_SUCCED, uint16(lockManager.locked), lock.locked, lockData)
+		_ = lockProtocol.ProcessLockResultCommandLocked(&replyCommand, protocol.RESULT_SUCCED, uint16(lockManager.locked), lock.locked, lockData)
 		return
 	}
 
